@@ -1,0 +1,13 @@
+//go:build verif
+
+package mutagen
+
+import "io"
+
+// VerifC34SendVersion exposes sendVersion to the verification harness.
+func VerifC34SendVersion(writer io.Writer) error { return sendVersion(writer) }
+
+// VerifC34ReceiveVersion exposes receiveVersion to the verification harness.
+func VerifC34ReceiveVersion(reader io.Reader) (uint32, uint32, uint32, error) {
+	return receiveVersion(reader)
+}
